@@ -151,6 +151,10 @@ func (e c16Env) exec(a c16Assign, dbOverride, logLayoutFor string, cmd ...string
 			rs = append(rs, fmt.Sprintf("MaxDepth=%d", c16Depth["conf"]))
 		}
 		conf = "[Global]\n" + strings.Join(g, "\n") + "\n[Resolver]\n" + strings.Join(rs, "\n") + "\n"
+		if len(a.String())%3 == 0 {
+			// a long preamble of comments (a generated file, a pasted manual): the entries start beyond 64 KiB
+			conf = strings.Repeat("; "+strings.Repeat("preamble ", 10)+"\n# another comment style\n", 640) + conf
+		}
 	}
 	os.Remove(filepath.Join(e.dir, "hr.conf"))
 	os.RemoveAll(filepath.Join(e.home, ".hranoprovod"))
